@@ -10,6 +10,12 @@ import (
 )
 
 func main() {
+	if len(os.Args) >= 6 && os.Args[1] == "bf" {
+		n := 0
+		fmt.Sscan(os.Args[5], &n)
+		bfProbe(os.Args[2], os.Args[3], os.Args[4], n)
+		return
+	}
 	for _, f := range os.Args[1:] {
 		lock := ""
 		r, err := colstore.NewPrimaryKeyReader(f, &lock)
